@@ -1,0 +1,127 @@
+//go:build verif
+
+package tor
+
+import (
+	"context"
+
+	"github.com/jech/storrent/hash"
+	"github.com/jech/storrent/path"
+	"github.com/jech/storrent/peer"
+)
+
+// This file only exists under the "verif" build tag.  It exposes internal
+// entry points and read-only views of internal state to the verification
+// harness.  Forwarders call the real function and contain no logic of
+// their own.  Accessors must only be called when the torrent's event loop
+// is quiescent or stopped, or by the goroutine that plays the loop.
+
+// VerifAnnounceTap, when set, is called by Torrent.announce immediately
+// before dht.Announce with the same arguments.
+var VerifAnnounceTap func(h hash.Hash, ipv6 bool, port uint16)
+
+// VerifYieldHook, when set, is called at named points of tor.Expire.
+var VerifYieldHook func(point string)
+
+func verifYield(point string) {
+	if h := VerifYieldHook; h != nil {
+		h(point)
+	}
+}
+
+func verifAnnounceTap(h hash.Hash, ipv6 bool, port uint16) {
+	if f := VerifAnnounceTap; f != nil {
+		f(h, ipv6, port)
+	}
+}
+
+func VerifHandleEvent(ctx context.Context, t *Torrent, e peer.TorEvent) error {
+	return handleEvent(ctx, t, e)
+}
+
+func VerifPeriodicRequest(ctx context.Context, t *Torrent) {
+	periodicRequest(ctx, t)
+}
+
+func VerifMaybeRequest(ctx context.Context, t *Torrent) {
+	maybeRequest(ctx, t)
+}
+
+func VerifRequestMetadata(t *Torrent, p *peer.Peer) error {
+	return requestMetadata(t, p)
+}
+
+func VerifMaybeUnchoke(t *Torrent, periodic bool) {
+	maybeUnchoke(t, periodic)
+}
+
+func VerifMaybeWebseed(ctx context.Context, t *Torrent, index uint32, idle bool) bool {
+	return maybeWebseed(ctx, t, index, idle)
+}
+
+// VerifInit performs the initialisation that AddTorrent and run do before
+// entering the event loop, for harnesses that play the loop themselves.
+func VerifInit(t *Torrent) {
+	t.Event = make(chan peer.TorEvent, 512)
+	t.Done = make(chan struct{})
+	t.Deleted = make(chan struct{})
+	t.rand = verifRand()
+}
+
+type VerifFileChunk struct {
+	Path       path.Path
+	FileLength int64
+	Offset     int64
+	Length     int64
+	Pad        bool
+}
+
+func VerifFileChunks(t *Torrent, index, offset, length uint32) []VerifFileChunk {
+	fcs := fileChunks(t, index, offset, length)
+	out := make([]VerifFileChunk, len(fcs))
+	for i, fc := range fcs {
+		out[i] = VerifFileChunk{fc.path, fc.filelength, fc.offset, fc.length, fc.pad}
+	}
+	return out
+}
+
+func VerifInFlight(t *Torrent) []uint8 {
+	return append([]uint8(nil), t.inFlight...)
+}
+
+func VerifAvailable(t *Torrent) []uint16 {
+	return append([]uint16(nil), t.available...)
+}
+
+func VerifPeers(t *Torrent) []*peer.Peer {
+	return append([]*peer.Peer(nil), t.peers...)
+}
+
+type VerifRequestedPiece struct {
+	Prio    []int8
+	HasDone bool
+}
+
+func VerifRequested(t *Torrent) map[uint32]VerifRequestedPiece {
+	m := make(map[uint32]VerifRequestedPiece, len(t.requested.pieces))
+	for i, r := range t.requested.pieces {
+		m[i] = VerifRequestedPiece{append([]int8(nil), r.prio...), r.done != nil}
+	}
+	return m
+}
+
+func VerifInfoRequested(t *Torrent) []uint8 {
+	return append([]uint8(nil), t.infoRequested...)
+}
+
+func VerifInfoSizeVotes(t *Torrent) map[uint32]int {
+	m := make(map[uint32]int, len(t.infoSizeVotes))
+	for k, v := range t.infoSizeVotes {
+		m[k] = v
+	}
+	return m
+}
+
+func VerifTorrentCount() int {
+	return count()
+}
